@@ -21,6 +21,9 @@ struct Action {
     } kind = run;
     vt at = 0;                 // virtual time at which it fires ...
     int idle_index = -1;       // ... or, if >= 0, the ordinal of the idle point at which it fires
+    int handler_index = -1;    // ... or, if >= 0, it fires between handlers: right after the n-th handler the io_context ran
+    bool in_handler = false;   // executed from inside a handler running on the client's executor (asio::post), not from outside
+    bool chained = false;      // executed in the same step as the previous script entry, without letting handlers run in between
     // publish / broker_publish
     int qos = 0; bool retain = false;
     std::string topic;         // suffix after the tag ("v/<op>/" is prepended) unless raw_topic
@@ -60,6 +63,7 @@ struct RunOutcome {
     bool harness_failure = false; std::string harness_what;
     bool final_stopped = false;
     uint64_t idle_points = 0, handlers = 0;
+    uint64_t handler_boundaries = 0;   // handlers executed in the main phase (positions available for handler_index)
     vt t_end = 0;
 };
 
